@@ -198,7 +198,45 @@ def run(ctx):
         sc.close()
 
 
-def documents(ctx):
+def run_third_party(ctx):
+    """C09: third-party shaped Glencoe documents denote the normal form of the model they were made from"""
+    from flamapy.metamodels.fm_metamodel.transformations import GlencoeReader
+    r = ctx.suite("R-glencoe-3p")
+    sc = fmt.Scratch()
+    try:
+        for label, doc, m in documents(ctx, with_model=True):
+            rreq = sx.dumps(tag("glencoe_read", spec.aval_sx(doc)))
+            mread = ctx.model.call_raw(rreq)
+            path = sc.path("gfm.json")
+            with open(path, "w", encoding="utf-8") as fh:
+                json.dump(doc, fh)
+            holder = {}
+
+            def read_file():
+                holder["fm"] = GlencoeReader(path).transform()
+                return holder["fm"]
+            iread = sx.dumps(fmt.result_pfm(read_file))
+            r.record(label, rreq, iread, mread)
+            if label != "third-party":
+                continue
+            if "fm" not in holder:
+                r.oracle_fail(label, rreq, "reader-raises-on-valid-document", iread[:200])
+                continue
+            back = spec.dump_fm(holder["fm"])
+            diffs = fmt.spec_equal(glencoe_norm(m), back, attrs=False, abstract=False, types=False)
+            by_name = dict(back["ctcs"])
+            for name, node in m["ctcs"]:
+                if name not in by_name or not equivalent(node, by_name[name]):
+                    diffs.append(f"constraint {name}")
+            if diffs:
+                r.oracle_fail(label, rreq, "denotes:same-model", "; ".join(diffs[:3]))
+            for fail in fmt.graph_wf(holder["fm"]):
+                r.oracle_fail(label, rreq, "graph:" + fail[0], fail[1])
+    finally:
+        sc.close()
+
+
+def documents(ctx, with_model=False):
     """third-party shaped documents (n-ary terms, 'optional' flags on grouped children and on the
     root, extra keys) and a malformed stream"""
     g = ctx.gen
@@ -229,7 +267,9 @@ def documents(ctx):
             f["note"] = rng.choice(["", "some note"])
             f["extra"] = 1
         d["features"][d["tree"]["id"]]["optional"] = rng.random() < 0.5     # the root's flag is irrelevant
-        yield "third-party", d
+        if "constraints" in d and not d["constraints"] and rng.random() < 0.5:
+            d.pop("constraints")          # a missing section means no constraints
+        yield ("third-party", d, m) if with_model else ("third-party", d)
         d = copy.deepcopy(doc)
         kind = rng.randrange(7)
         g.count("glencoe_malformed", kind)
@@ -253,4 +293,4 @@ def documents(ctx):
                 d["features"][rng.choice(gen_ids)].pop("max")
         elif kind == 6:
             d["tree"].pop("id")
-        yield "malformed", d
+        yield ("malformed", d, m) if with_model else ("malformed", d)
